@@ -3,7 +3,7 @@ import itertools
 
 from core import strip, is_field, key_str, key_mentions
 from facts import AnalysisBroken
-from rules import (nodeset, ev, Unevaluable, atom_from, ret_const)
+from rules import (check_init, nodeset, ev, Unevaluable, atom_from, ret_const)
 from symword import Machine
 import stale
 
@@ -295,3 +295,4 @@ def run(ctx):
                 if not ((fn.name == "fiber_rwlock_init" and kind == "assign") or (fn.name.startswith("fiber_rwlock_") and kind == "cas")):
                     bad = bad or ("`%s` in %s" % (s.node.text, fn.name), s.node)
     o.check(bad is None, "CAS-only", "unexpected writer " + (bad[0] if bad else ""), site=bad[1] if bad else None, construct="rwlock state writer")
+    check_init(ctx, P, "fiber_rwlock_init", [("fiber_rwlock_state_t", "blob", 0)], calls=[("mpsc_fifo_init", 2)])
